@@ -60,12 +60,19 @@ def asarray(
 
     # from dask.asarray
     if isinstance(a, Array):
+        if dtype is not None and a.dtype != dtype:
+            from cubed.array_api.data_type_functions import astype
+
+            return astype(a, dtype)
         return a
     elif type(a).__module__.split(".")[0] == "xarray" and hasattr(
         a, "data"
     ):  # pragma: no cover
         return asarray(a.data)
     elif not isinstance(getattr(a, "shape", None), Iterable):
+        a = nxp.asarray(a, dtype=dtype)
+    elif dtype is not None and a.dtype != dtype:
+        # an explicitly requested dtype applies to array inputs too
         a = nxp.asarray(a, dtype=dtype)
 
     if dtype is None:
